@@ -266,6 +266,32 @@ func (c06Engine) Gen(g *Gen) {
 		n = 8000
 	}
 	worlds := curatedWorlds()
+	// systematic histories on the hub worlds (files sharing their first import): every file-level
+	// derived relation asked of every importing file in order, again in order, then in reverse -
+	// so that an answer that aliases or memoises another file's answer is asked for again after the
+	// other file was asked (detection must not depend on the random history)
+	for _, hw := range hubWorlds() {
+		c := hw
+		c.Ops = []opJ{}
+		var fis []int
+		for fi, f := range c.Files {
+			if len(f.Deps) > 0 {
+				fis = append(fis, fi)
+			}
+		}
+		for _, acc := range []string{"transitive", "imports", "dependents", "unused"} {
+			for pass := 0; pass < 3; pass++ {
+				for k := range fis {
+					fi := fis[k]
+					if pass == 2 {
+						fi = fis[len(fis)-1-k]
+					}
+					c.Ops = append(c.Ops, opJ{ref{fi, []int{}}, acc})
+				}
+			}
+		}
+		worlds = append(worlds, c)
+	}
 	for i := 0; i < n; i++ {
 		worlds = append(worlds, wWorld{}) // placeholder: generated below
 	}
@@ -315,6 +341,12 @@ func (c06Engine) Gen(g *Gen) {
 			}
 		}
 		if len(cands) == 0 {
+			continue
+		}
+		if worlds[i].Ops != nil { // a prepared (systematic) history
+			w.Ops = worlds[i].Ops
+			countWorld(g, w)
+			g.Emit(w)
 			continue
 		}
 		// a random history with repetitions, biased towards the stateful accessors
